@@ -48,7 +48,14 @@ func (sig *Signature) Deserialize(b []byte) error {
 	if len(b) == 0 {
 		return fmt.Errorf("signature Deserialized failed.")
 	}
-	sig.value.Unmarshal(b)
+	rest, err := sig.value.Unmarshal(b)
+	if err != nil || len(rest) != 0 {
+		sig.value = bn_curve.G1{}
+		if err == nil {
+			err = fmt.Errorf("signature Deserialized failed: %d trailing bytes", len(rest))
+		}
+		return err
+	}
 	return nil
 }
 
@@ -62,12 +69,7 @@ func (sig *Signature) SetHexString(s string) error {
 	}
 	buf := s[len(PREFIX):]
 
-	if sig.value.IsNil() {
-		sig.value = bn_curve.G1{}
-	}
-
-	sig.value.Unmarshal(common.Hex2Bytes(buf))
-	return nil
+	return sig.Deserialize(common.Hex2Bytes(buf))
 }
 
 func (sig *Signature) IsNil() bool {
@@ -84,7 +86,7 @@ func (sig Signature) IsValid() bool {
 		return false
 	}
 
-	return sig.value.IsValid()
+	return !sig.value.IsInfinity() && sig.value.IsValid()
 }
 
 func Sign(sec Seckey, msg []byte) (sig Signature) {
